@@ -57,7 +57,8 @@ pub mod sharding {
 /// C02/C10: stream-id bookkeeping and the real connection router over an arbitrary byte stream.
 pub mod connection {
     pub use crate::network::connection_verif::{
-        Lookup, RawConnection, RawResponse, StreamIds, StreamMap,
+        Lookup, RawConnection, RawResponse, StreamIds, StreamMap, VerifConn, VerifConnOptions,
+        verify_keyspace_name,
     };
 }
 
